@@ -264,15 +264,20 @@ pub fn parse_expr(
 
             builder.build().map_err(Error::DataFusionError)
         }
-        ExprType::Alias(alias) => Ok(Expr::Alias(Alias::new(
-            parse_required_expr(alias.expr.as_deref(), ctx, "expr", codec)?,
-            alias
-                .relation
-                .first()
-                .map(|r| TableReference::try_from(r.clone()))
-                .transpose()?,
-            alias.alias.clone(),
-        ))),
+        ExprType::Alias(alias) => Ok(Expr::Alias(
+            Alias::new(
+                parse_required_expr(alias.expr.as_deref(), ctx, "expr", codec)?,
+                alias
+                    .relation
+                    .first()
+                    .map(|r| TableReference::try_from(r.clone()))
+                    .transpose()?,
+                alias.alias.clone(),
+            )
+            .with_metadata(
+                (!alias.metadata.is_empty()).then(|| (&alias.metadata).into()),
+            ),
+        )),
         ExprType::IsNullExpr(is_null) => Ok(Expr::IsNull(Box::new(parse_required_expr(
             is_null.expr.as_deref(),
             ctx,
@@ -429,7 +434,8 @@ pub fn parse_expr(
             let data_type: DataType = cast.arrow_type.as_ref().required("arrow_type")?;
             let field = data_type
                 .into_nullable_field()
-                .with_nullable(cast.nullable.unwrap_or(true));
+                .with_nullable(cast.nullable.unwrap_or(true))
+                .with_metadata(cast.metadata.clone());
             Ok(Expr::Cast(Cast::new_from_field(expr, Arc::new(field))))
         }
         ExprType::TryCast(cast) => {
@@ -442,7 +448,8 @@ pub fn parse_expr(
             let data_type: DataType = cast.arrow_type.as_ref().required("arrow_type")?;
             let field = data_type
                 .into_nullable_field()
-                .with_nullable(cast.nullable.unwrap_or(true));
+                .with_nullable(cast.nullable.unwrap_or(true))
+                .with_metadata(cast.metadata.clone());
             Ok(Expr::TryCast(TryCast::new_from_field(
                 expr,
                 Arc::new(field),
